@@ -27,6 +27,12 @@ func genC06(r *simrt.RNG, tier string, variant int) Plan {
 		p.Clients = append(p.Clients, ClientPlan{Name: "B", Kind: "http", Server: 0})
 	}
 	tok := 1
+	if r.Bool(0.3) {
+		// a notification whose handler stays busy until the end of the run: cancels
+		// (and everything else) on that connection must get through all the same
+		p.Ops = append(p.Ops, Op{Kind: "notify", Client: 0, Tok: tok})
+		tok++
+	}
 	n := 2 + r.Intn(7)
 	for i := 0; i < n; i++ {
 		op := Op{Kind: "ctx", Client: r.Intn(len(p.Clients)), Tok: tok, Hold: r.Bool(0.5), Size: Pick(r, []int{0, 100, 5000})}
@@ -119,7 +125,10 @@ func runC06(e *Env, p *Plan) {
 			ctx, cancel = context.WithValue(groupCtx[op.Group], op.Tok, op.Tok), groupCancel[op.Group]
 		}
 		cancelAll = append(cancelAll, cancel)
-		if op.Kind == "ctx" || (op.Kind == "sub" && op.Hold) {
+		if op.Kind == "notify" {
+			e.Probe("notification-handler-busy-throughout")
+		}
+		if op.Kind == "ctx" || op.Kind == "notify" || (op.Kind == "sub" && op.Hold) {
 			g := make(chan struct{})
 			gates[op.Tok] = g
 			t.mu.Lock()
